@@ -699,18 +699,11 @@ impl<'tree> Node<'tree> {
     &self,
     _cursor: &'a mut TreeCursor<'tree>,
   ) -> impl ExactSizeIterator<Item = Node<'tree>> + 'a {
-    let mut v = Vec::new();
-    let mut c = self.d().first_child;
-    let mut guard = 0;
-    while c != NIL && guard < MAXN {
-      v.push(Node {
-        tree: self.tree,
-        idx: c,
-      });
-      c = self.tree.nodes[c as usize].next;
-      guard += 1;
+    ChildIter {
+      tree: self.tree,
+      cur: self.d().first_child,
+      remaining: self.d().child_count as usize,
     }
-    v.into_iter()
   }
   pub fn edit(&mut self, _edit: &InputEdit) {}
   pub fn end_byte(&self) -> u32 {
@@ -807,6 +800,32 @@ impl<'tree> Node<'tree> {
     }
   }
 }
+
+/// allocation-free child iterator
+pub struct ChildIter<'tree> {
+  tree: &'tree TreeData,
+  cur: u8,
+  remaining: usize,
+}
+impl<'tree> Iterator for ChildIter<'tree> {
+  type Item = Node<'tree>;
+  fn next(&mut self) -> Option<Self::Item> {
+    if self.remaining == 0 || self.cur == NIL {
+      return None;
+    }
+    let n = Node {
+      tree: self.tree,
+      idx: self.cur,
+    };
+    self.cur = self.tree.nodes[self.cur as usize].next;
+    self.remaining -= 1;
+    Some(n)
+  }
+  fn size_hint(&self) -> (usize, Option<usize>) {
+    (self.remaining, Some(self.remaining))
+  }
+}
+impl<'tree> ExactSizeIterator for ChildIter<'tree> {}
 
 impl<'a> Ord for Node<'a> {
   fn cmp(&self, other: &Self) -> std::cmp::Ordering {
